@@ -92,6 +92,11 @@ def run(rep, props, replay=None):
             a = 2.5
             if abs(fd.dense(x, a * X).noise_variance(order=order) - a * a * nv) > 1e-9 * sc * sc * a * a:
                 bad.append("does not scale with the square of a factor")
+            for k2 in (15, 30):
+                # powers of two scale every intermediate exactly, so tiny curves must scale just as well
+                a2 = 2.0 ** (-k2)
+                if abs(fd.dense(x, a2 * X).noise_variance(order=order) - a2 * a2 * nv) > 1e-9 * sc * sc * a2 * a2:
+                    bad.append(f"does not scale with the square of the factor 2^-{k2} (small curves)")
             if m < order + 1 and nv != 0:
                 bad.append("non-zero for curves too short for the order")
             cst = 7.0
